@@ -481,3 +481,83 @@ Example C17_ex_args_norepeat :
               mkCall 1%nat 1%nat (mkDs [10; 20] Linear false None)] [] []
   = ([10; 1; 20; 2], Some (DGE "Could not generate enough values to create rows")).
 Proof. vm_compute. reflexivity. Qed.
+
+(* ------------------------------------------------------------------ round 5 *)
+
+(* "every column intact".  A consuming row sees its record through Snowfakery's case-insensitive
+   dictionary (store keyed by fold(name), fold = str.lower in /repo; the model takes ANY folding).
+   When the column names of the dataset are pairwise different under the folding, the record shows
+   exactly the columns of the row — names as written, values, order — and looking a column up under
+   any spelling that folds like its name gives that column's value. *)
+Theorem C17_columns_intact :
+  forall (V : Type) (fold : name -> name) (l : list (name * V)),
+    NoDup (map fold (map fst l)) ->
+    cid_items (record_of fold l) = l /\
+    forall k v k', In (k, v) l -> fold k' = fold k -> record_get fold (record_of fold l) k' = Some v.
+Proof. exact record_columns_intact. Qed.
+Print Assumptions C17_columns_intact.
+
+(* ... and only then: if two column names fold alike they are ONE key and the record has fewer
+   columns than the row (so a folding that identifies more names than str.lower loses columns that
+   are intact today: Strasse / Stra(sharp s)e under str.casefold). *)
+Theorem C17_columns_twins_collapse :
+  forall (V : Type) (fold : name -> name) (l : list (name * V)),
+    ~ NoDup (map fold (map fst l)) -> (length (cid_items (record_of fold l)) < length l)%nat.
+Proof. exact record_twins_lose_a_column. Qed.
+Print Assumptions C17_columns_twins_collapse.
+
+(* non-vacuity: header Nr, Stra(223)e, Strasse.  Under a folding that keeps 223 the three columns
+   arrive; under one that turns 223 into "ss" the record shows two columns and the name
+   Stra(223)e answers with the value of column Strasse. *)
+Definition nm_nr : name := [78; 114].
+Definition nm_sz : name := [83; 116; 114; 97; 223; 101].
+Definition nm_ss : name := [83; 116; 114; 97; 115; 115; 101].
+Definition fold_id : name -> name := fun s => s.
+Definition fold_ss : name -> name := flat_map (fun z => if z =? 223 then [115; 115] else [z]).
+Definition row_w : list (name * Z) := [(nm_nr, 1); (nm_sz, 2); (nm_ss, 3)].
+
+Example C17_ex_columns_intact :
+  cid_items (record_of fold_id row_w) = row_w /\ record_get fold_id (record_of fold_id row_w) nm_sz = Some 2.
+Proof. vm_compute. split; reflexivity. Qed.
+
+Example C17_ex_columns_collapse :
+  cid_items (record_of fold_ss row_w) = [(nm_nr, 1); (nm_ss, 3)] /\
+  record_get fold_ss (record_of fold_ss row_w) nm_sz = Some 3.
+Proof. vm_compute. split; reflexivity. Qed.
+
+(* Macros.  `include: m` parses the macro again for every including template: the call sites the
+   inclusion brings along are the macro's, renumbered for this inclusion (in front of the
+   template's own) ... *)
+Theorem C17_include_macro_call_sites :
+  forall (R : Type) k (m : macro R) (t : tmpl R) s,
+    In s (tmpl_sids R (include_macro R k m t)) <->
+    In s (map (Nat.add k) (macro_sids R m)) \/ In s (tmpl_sids R t).
+Proof. exact include_macro_sids. Qed.
+Print Assumptions C17_include_macro_call_sites.
+
+(* ... two inclusions have no call site in common (local numbers below B, inclusions numbered from
+   i*B and j*B) ... *)
+Theorem C17_inclusions_own_call_sites :
+  forall (R : Type) (m : macro R) (B i j : nat),
+    (forall s, In s (macro_sids R m) -> (s < B)%nat) -> i <> j ->
+    forall s, In s (map (Nat.add (i * B)) (macro_sids R m)) ->
+              ~ In s (map (Nat.add (j * B)) (macro_sids R m)).
+Proof. exact inclusions_own_call_sites. Qed.
+Print Assumptions C17_inclusions_own_call_sites.
+
+(* ... hence the same Dataset call reached through two inclusions (two different call sites) has two
+   state keys — each including template is a consumer of its own, to which the per-key theorems
+   above (C17_placement_mod_n, C17_placement_no_reuse) apply — unless the call is named. *)
+Theorem C17_inclusions_keys :
+  forall (R : Type) (d : dsref R) (a b : nat),
+    a <> b -> (key_of R a d = key_of R b d <-> d_name R d <> None).
+Proof. exact inclusions_keys. Qed.
+Print Assumptions C17_inclusions_keys.
+
+(* non-vacuity: macro `address` (one Dataset.iterate field, local call site 1) included by Customer
+   and Supplier: call sites 101 and 201 *)
+Definition ex_macro : macro Z := mkMacro [(1%nat, mkDs [10; 20; 30] Linear true None)] TNil TNil.
+Example C17_ex_inclusions :
+  tmpl_sids Z (include_macro Z 100 ex_macro (Tmpl 1%nat (LCount 2) [] [] TNil TNil)) = [101%nat] /\
+  tmpl_sids Z (include_macro Z 200 ex_macro (Tmpl 2%nat (LCount 2) [] [] TNil TNil)) = [201%nat].
+Proof. vm_compute. split; reflexivity. Qed.
